@@ -72,6 +72,12 @@ type sim struct {
 	used    map[string]int
 	topoReq int
 	held    []heldCmd
+	// detection of the client's delayed background refresh (not modelled: such an episode is run again):
+	// once a redirect-class reply armed it, a connection made for an address that no reply of the current op
+	// named as a redirect target can only come from _refresh
+	redirTargets map[string]bool
+	lazyFired    bool
+	inRefresh    bool
 	// reply texts / ids of the batch being answered (index = position in the received slice)
 	lastTexts []string
 	lastIDs   []int
@@ -91,6 +97,9 @@ func (s *sim) mk(addr string, replicaOnly bool) rueidis.VerifNodeBackend {
 	s.mu.Lock()
 	defer s.mu.Unlock()
 	s.serial++
+	if s.armed && !s.inRefresh && !s.redirTargets[addr] {
+		s.lazyFired = true
+	}
 	return &nodeBackend{s: s, addr: addr, serial: s.serial}
 }
 
@@ -151,6 +160,12 @@ func (s *sim) answer(addr string, id int, isMulti bool) (rueidis.RedisResult, st
 			s.used[in.kind]++
 			if redirectClass(in.kind, in.arg) {
 				s.armed = true
+			}
+			if in.kind == "mv" || in.kind == "ask" {
+				if s.redirTargets == nil {
+					s.redirTargets = map[string]bool{}
+				}
+				s.redirTargets[in.arg] = true
 			}
 			r, txt := replyResult(in.kind, in.arg, 0)
 			s.events = append(s.events, replyEvent{id, addr, txt})
